@@ -91,6 +91,7 @@ def documents(tier):
     for label, tree in docs:
         out.append((label, D.render(tree)[0]))
     for i, e in enumerate(['("[name]" = "Lake (north")', '("[name]" = "a)b" AND [x] > 1)', "([a] = ')' OR [b] = '(')", '(("a)" + [a]) * ([b] + 2))',
+                           "([name] = 'O\\'Neil')", '("[a]" = "say \\"hi" OR [b] = 1)', "([a] ~ /o'neil/)", "(([a] + 'it\\'s') = \"x\")",
                            '([a] IN "1,2" AND NOT ([b] ~ "^(x|y)$"))', '(tostring([area],"%.2f (ha)"))', '{a (1),b}', '/^(a|b)\\)$/']):
         out.append(("EXPR %d" % i, "LAYER\n  TYPE POINT\n  CLASS\n    EXPRESSION %s\n    TEXT %s\n  END\nEND" % (e, e if e.startswith("(") else '"t"')))
     # keywords that are also block names, holding simple values and being the longest keyword of their object
